@@ -105,6 +105,9 @@ def gen_schedule(rng, kind):
                 steps[i]["msg"] = gen_msg(rng, sname, None)
             elif r < 0.2:
                 steps[i]["api"] = "dump"
+    if kind in ("early", "faults", "startup") and rng.random() < 0.5:
+        # the 32-bit millisecond clock of the device may be about to wrap when it connects
+        sched["t0"] = rng.choice([2**32 - 300, 2**32 - 1500, 2**32 - 2100, 2**32 - 60000, 2**31 - 1000])
     if kind == "early":          # (retained) sets delivered between subscription and initial dump
         for i in range(6, min(n, 30)):
             if rng.random() < 0.3:
@@ -113,6 +116,12 @@ def gen_schedule(rng, kind):
         for i in range(30, n):
             if rng.random() < 0.15:
                 steps[i]["msg"] = gen_msg(rng, sname, None)
+        if rng.random() < 0.5:   # the broker acknowledges the alive message late: the client cannot publish meanwhile
+            k0 = rng.randint(0, 4)
+            steps[k0]["ack"] = False
+            k1 = rng.randint(10, 28)
+            steps[k1]["ack"] = True
+            steps[k1]["release_acks"] = True
     if kind == "faults":
         for i in range(n):
             r = rng.random()
